@@ -58,7 +58,7 @@ Print Assumptions C05_force.
 Theorem C05_schedule : forall (c : cfgR) (hist : list eventR),
   cfg_ok c -> history_ok c hist ->
   st_new (final_state Rops c hist) = s_pend (spec_run c hist) /\
-  (c_keep c = true -> st_old (final_state Rops c hist) = s_tab (spec_run c hist)) /\
+  (c_keep (final_cfg c hist) = true -> st_old (final_state Rops c hist) = s_tab (spec_run c hist)) /\
   Dropped (fun _ => True) (s_tab (spec_run c hist)) (st_old (final_state Rops c hist)) /\
   st_geom (final_state Rops c hist) = s_geom (spec_run c hist).
 Proof. exact schedule_holds. Qed.
@@ -237,6 +237,54 @@ Proof.
   destruct w_example as (H1 & H2 & _). split; [exact H1|]. split; [exact H2|]. split; [reflexivity|]. split; [|reflexivity].
   apply Forall_cons; [|apply Forall_nil]. unfold plain_var, w_var. cbn [v_kind v_periodic v_gperiodic v_width].
   repeat split; lra.
+Qed.
+
+(* Multiple replicas.  The mirror object of another replica, fed with the hills received from it (MAdd, any hills with
+   one centre per variable and positive widths) and projected when the grids of this replica are (MProj), returns the
+   sum of those hills: tabulated ones at the centre of the bin, the others at the actual position ... *)
+Theorem C05_replica_mirror_energy : forall (c : cfgR) (evs : list mirror_ev) (x : list valueR),
+  cfg_ok c -> no_expand c -> Forall (mirror_ok c) evs -> adm c (c_geom0 c) x ->
+  calc_energy Rops c (mirror_run c evs) x = spec_energy c (mirror_spec_run c evs) x.
+Proof. exact mirror_energy. Qed.
+Print Assumptions C05_replica_mirror_energy.
+
+Theorem C05_replica_mirror_hills : forall (c : cfgR) (evs : list mirror_ev),
+  s_all (mirror_spec_run c evs) = flat_map (fun e => match e with MAdd h => [h] | MProj => [] end) evs.
+Proof. exact mirror_hills. Qed.
+Print Assumptions C05_replica_mirror_hills.
+
+(* ... and the energy / forces summed over this replica and the mirrors (calc_energy, calc_forces with replicas) are
+   those of the hills deposited here on schedule plus all hills received from the other replicas. *)
+Theorem C05_replicas_energy : forall (c : cfgR) (hist : list eventR) (i : inR) (mevs : list (list mirror_ev)),
+  cfg_ok c -> history_ok c (hist ++ [EStep i]) ->
+  no_expand (final_cfg c hist) -> Forall (Forall (mirror_ok (final_cfg c hist))) mevs ->
+  adm (final_cfg c hist) (c_geom0 (final_cfg c hist)) (i_x i) ->
+  total_energy Rops (final_cfg c hist) (final_state Rops c (hist ++ [EStep i])) (map (mirror_run (final_cfg c hist)) mevs) (i_x i) =
+  (spec_energy c (spec_run c (hist ++ [EStep i])) (i_x i) +
+   Rsum (map (fun evs => spec_energy (final_cfg c hist) (mirror_spec_run (final_cfg c hist) evs) (i_x i)) mevs))%R.
+Proof. exact replicas_energy. Qed.
+Print Assumptions C05_replicas_energy.
+
+Theorem C05_replicas_force : forall (c : cfgR) (hist : list eventR) (i : inR) (mevs : list (list mirror_ev)) (k j : nat),
+  cfg_ok c -> history_ok c (hist ++ [EStep i]) ->
+  no_expand (final_cfg c hist) -> Forall (Forall (mirror_ok (final_cfg c hist))) mevs ->
+  adm (final_cfg c hist) (c_geom0 (final_cfg c hist)) (i_x i) -> (k < length (c_vars c))%nat ->
+  total_force Rops (final_cfg c hist) (final_state Rops c (hist ++ [EStep i])) (map (mirror_run (final_cfg c hist)) mevs) (i_x i) k j =
+  (spec_force c (spec_run c (hist ++ [EStep i])) (i_x i) k j +
+   Rsum (map (fun evs => spec_force (final_cfg c hist) (mirror_spec_run (final_cfg c hist) evs) (i_x i) k j) mevs))%R.
+Proof. exact replicas_force. Qed.
+Print Assumptions C05_replicas_force.
+
+Example C05_premises_satisfiable_replicas :
+  cfg_ok w_cfg /\ history_ok w_cfg ([EStep w_i1] ++ [EStep w_i2]) /\ no_expand (final_cfg w_cfg [EStep w_i1]) /\
+  Forall (Forall (mirror_ok (final_cfg w_cfg [EStep w_i1])))
+         [[MAdd (mkHill 1%Z 1%R [[(7/2)%R]] [1%R]); MProj; MAdd (mkHill 2%Z (1/2)%R [[(-(1/4))%R]] [(1/2)%R])]; [MProj]] /\
+  adm (final_cfg w_cfg [EStep w_i1]) (c_geom0 (final_cfg w_cfg [EStep w_i1])) (i_x w_i2).
+Proof.
+  destruct w_example as (H1 & H2 & _). split; [exact H1|]. split; [exact H2|].
+  split; [repeat constructor|]. split.
+  - repeat constructor; cbn; lra.
+  - exact (last_step_adm w_cfg [EStep w_i1] w_i2 H2).
 Qed.
 
 Example C05_premises_satisfiable_reconfiguration :
